@@ -892,9 +892,9 @@ MEM_INVS = ["Disjoint", "InBounds", "AccessorInBlock", "RowsDisjoint", "Aligned"
 @check("C14", "model_checking")
 def check_c14(run):
     q = run.tier == "quick"
-    consts = dict(Align=64, Word=8, MaxItems=5 if q else 9, ExtraCounts={8, 9, 64, 65} if q else {8, 9, 16, 17, 63, 64, 65, 128, 129, 1000}, MaxOps=3, Shard=0, NbShards=1, EmitJson=True)
+    consts = dict(Align=64, Word=8, MaxItems=5 if q else 9, ExtraCounts={8, 9, 64, 65} if q else {8, 9, 16, 17, 63, 64, 65, 128, 129, 1000, 4096, 10000}, MaxOps=3, Shard=0, NbShards=1, EmitJson=True)
     res = tlc_sharded("MemBlock", consts, MEM_INVS, [], 8, 1, 1500, "C14-memblock")
-    run.add_tlc("C14-memblock", res, note="MemBlock.tla: 8 layouts (1-4 sub-blocks of scalar / vector / multi-row kinds, element sizes 1..4096), counts 0..%d + %s, histories reset / reuse-reset / move / byte-copy view" % (consts["MaxItems"], sorted(consts["ExtraCounts"])))
+    run.add_tlc("C14-memblock", res, note="MemBlock.tla: 10 layouts (1-4 sub-blocks of scalar / vector / multi-row / multi-column kinds, element sizes 1..4096), counts 0..%d + %s, histories reset / reuse-reset / move / byte-copy view" % (consts["MaxItems"], sorted(consts["ExtraCounts"])))
     if res.violated:
         run.machinery_errors.append("TLC: %s of spec/MemBlock.tla violated (log %s)" % (res.violated, res.logpath))
     OPC = {"reset": 0, "move": 1, "view": 2}
